@@ -85,6 +85,30 @@ def _observe(stmt, style):
     return 'ok', src
 
 
+def _normalised(feature):
+    """The feature with every literal replaced by the representative of its hash-collision class."""
+    out = A.strip_alias(feature)
+    for path, node in A.walk_paths(out):
+        if node.get('f') == 'lit':
+            twin = S._twin(node['kind'], node['v'])  # pylint: disable=protected-access
+            if twin is not None and repr(twin) < repr(node['v']):
+                out = A.replace(out, path, A.lit(twin, node['kind']))
+    return out
+
+
+def _collides_with_key(stmt) -> bool:
+    """Some grouped query selects a non-aggregate feature that differs from a grouping key only by colliding literals."""
+    for node in A.walk(stmt):
+        if node.get('t') == 'query' and node.get('groupby'):
+            keys = [A.strip_alias(k) for k in node['groupby']]
+            normal = [_normalised(k) for k in keys]
+            for item in node.get('select') or []:
+                inner = A.strip_alias(item)
+                if inner not in keys and not A.has_agg(inner) and _normalised(inner) in normal:
+                    return True
+    return False
+
+
 def check_stmt(ctx, spec):
     stmt, style = spec['ast'], spec.get('style', 'operator')
     verdict = wellformed.check(stmt)
@@ -102,7 +126,7 @@ def check_stmt(ctx, spec):
         if got == 'grammar':
             return
         trig = [verdict]
-        if spec.get('how') == 'collide':
+        if verdict == 'group:select' and _collides_with_key(stmt):
             trig.append('lit-collide')
         if got == 'ok':
             ctx.fail(spec, 'verdict', 'accepted-invalid', f'oracle: {verdict}; forml built {payload!r}', trig)
